@@ -99,7 +99,16 @@ def r01_1(ctx: Ctx, rule: str = "R01.1", decoder_only: bool = False) -> None:
         ctx.check(ok, rule, dm or dc.name, dm.node if dm else None, f"{dc.name}.decompress(data, max_length)", f"{dc.name}.decompress does not accept (data, max_length)", construct=f"{dc.name}.decompress signature")
     # BCJ special-case lists
     bcj_methods = {m["filter_id"] for m in methods if m["type"] == EnumVal("MethodsType", "filter") and m["filter_id"] in amap}
-    r1 = _filter_consts_compared(ctx, ctx.prog.func("compressor", "SevenZipDecompressor.__init__"), "filter_id") - {by_fid_name(methods, "LZMA2")}
+    rd_init = ctx.prog.func("compressor", "SevenZipDecompressor.__init__")
+    r1 = _filter_consts_compared(ctx, rd_init, "filter_id")
+    # the special case may have been moved into a helper the constructor calls (a function that did not exist when the rules were written)
+    from ..inline import known_functions as _kf
+    for c_ in q.calls(rd_init):
+        cs_ = ctx.res.site_of(rd_init, c_)
+        for t_ in (cs_.targets if cs_ is not None else []):
+            if _kf() and t_.qname not in _kf() and t_.module == "compressor":
+                r1 |= _filter_consts_compared(ctx, t_, "filter_id")
+    r1 -= {by_fid_name(methods, "LZMA2")}
     r2 = _filter_consts_compared(ctx, gad, "filter_id")
     ctx.check(r1 == bcj_methods, rule, "compressor:SevenZipDecompressor.__init__", None, "reader BCJ list (chain hack) = BCJ entries of the class map",
               f"SevenZipDecompressor.__init__ special-cases filters {sorted(r1)} but the class map has BCJ decoders for {sorted(bcj_methods)}", construct="reader BCJ list 1")
@@ -356,6 +365,7 @@ def r01_17(ctx: Ctx, rule: str = "R01.17") -> None:
               "are written without any error, and extraction of the archive fails with LZMAError('Invalid or unsupported options')", construct="unreadable chain accepted")
     # sibling agreement of the grouping
     rd = ctx.prog.func("compressor", "SevenZipDecompressor.__init__")
+    from ..inline import known_functions as _kf
 
     def special(fn) -> Tuple[set, set]:
         bcj, cond = set(), set()
@@ -379,6 +389,13 @@ def r01_17(ctx: Ctx, rule: str = "R01.17") -> None:
             got_b |= b_
             got_c |= c_
         want_b, want_c = special(rd)
+        for c_ in q.calls(rd):
+            cs_ = ctx.res.site_of(rd, c_)
+            for t_ in (cs_.targets if cs_ is not None else []):
+                if _kf() and t_.qname not in _kf() and t_.module == "compressor":
+                    b_, c2_ = special(t_)
+                    want_b |= b_
+                    want_c |= c2_
         ctx.check(got_b == want_b and got_c == want_c, rule, t, t.node, "the writer's check groups the coders as the reader does",
                   f"the check the writer applies names the branch filters {sorted(got_b)} / condition {sorted(got_c)} in its special case, SevenZipDecompressor.__init__ names "
                   f"{sorted(want_b)} / {sorted(want_c)}: the two group the coders differently, so the writer accepts chains the reader cannot decode (or refuses readable ones)",
